@@ -6,6 +6,26 @@ from .mir import cname, strip, callee_name
 OPW = 'kinematics_impl::OPWKinematics'
 
 
+def solver_helpers(prog):
+    """Free functions (any module) that the methods of OPWKinematics call directly or from their closures: the helper
+    roles (gates, near-normaliser, joint distance) are looked for among these, by signature, not by module or name."""
+    own = [b.path for b in prog.bodies.values() if b.raw.get('impl_self') == OPW]
+    own += [c for p in list(own) for c in prog.closures_of.get(p, [])]
+    out = {}
+    for p in own:
+        for _, t in prog.bodies[p].calls():
+            c = t['callee']
+            r = c.get('resolved') if c.get('local') else None
+            cb = prog.bodies.get(r)
+            if cb is not None and cb.kind == 'Fn' and not cb.raw.get('impl_self'):
+                out[cb.path] = cb
+    for b in prog.bodies.values():
+        # ... and the solver's own inherent methods / associated functions
+        if b.raw.get('impl_self') == OPW and not b.raw.get('impl_trait') and b.kind != 'Closure':
+            out[b.path] = b
+    return list(out.values())
+
+
 def truth(key, edges=None):
     """Truth value of a bool switch edge key (0 -> False, 1/otherwise -> True)."""
     if key == 0:
